@@ -1,4 +1,19 @@
-"""C01 - Beacon configuration extraction is exact and complete (structural spine)."""
+"""C01 - Beacon configuration extraction is exact and complete (structural spine).
+
+The rules are phrased over *values* and *control flow*, not over the spelling of the code:
+
+* `_Val` evaluates an expression at a program point into a canonical value term (flow-sensitive reaching definitions,
+  tuple packing/unpacking, loop elements, dict literals, constant folding).  Temporaries, renamed locals, keyword vs
+  positional arguments, hoisted constants and inlined helper bodies are invisible at this level.
+* Subjects are located by role: "the loop that consumes the scanner", "the yield inside the loop over
+  find_beacon_config_bytes(<XorEncoded view>, <key>)", "the object that is returned and was built from the candidate".
+* Gating of the search phases (`found` logic) is decided by a path-sensitive exploration of the CFG that tracks the
+  constant boolean locals: "after a candidate has been yielded, no later phase can be entered" - whether that is
+  implemented with a flag, an early return or nested ifs does not matter.
+
+Three verdicts: the located construct satisfies the necessary condition -> discharged; it is located and does not ->
+violated; the construct cannot be located in the (normalised) code -> undecided.
+"""
 
 from __future__ import annotations
 
@@ -6,14 +21,22 @@ import ast
 
 from csverif import cdefs as cdefs_mod
 from csverif.astutil import (
-    assignments_to, body_walk, const_eval, dotted, fn_calls, is_const, kwarg, module_env, NotConst, params, src,
-    statements, strip_cast, conjuncts,
+    assignments_to, bind_args, body_walk, const_eval, dotted, fn_calls, module_env, NotConst, params, src, statements,
+    strip_cast,
 )
 from csverif.cfg import ENTRY, EXIT, RAISE
-from csverif.q import FuncView, all_origins, calls_to, guarded_by, origin, raise_class, reaching_origins
+from csverif.q import FuncView, dominating_conditions, raise_class, reaching_defs, tv_eval
 
 REF_DEFAULT_KEYS = [b"\x69", b"\x2e", b"\x00"]  # property statement: defaults 0x69, 0x2e, 0x00 in priority order
 REF_PATCH_SIZE = 4096
+
+FQ_SCANNER = "utils.iter_find_needle"
+FQ_XOR = "utils.xor"
+FQ_FIND = "beacon.find_beacon_config_bytes"
+FQ_BLOCKS = "beacon.iter_beacon_config_blocks"
+FQ_XORFILE = "xordecode.XorEncodedFile.from_file"
+FQ_BYTELIST = "beacon.make_byte_list"
+FQ_FROM_FILE = "beacon.BeaconConfig.from_file"
 
 
 def run(ctx):
@@ -21,10 +44,11 @@ def run(ctx):
     rep.explanation = (
         "Static analysis of the extraction spine in beacon.py (find_beacon_config_bytes, iter_beacon_config_blocks, "
         "BeaconConfig.from_file/from_path/from_bytes): default key table, needle derived from the Setting struct "
-        "definition, def-use agreement of the XOR key and scan position, search-phase order and 'not found' gating by "
-        "CFG dominance, first-candidate-wins (no back edge from the candidate loop), exit analysis. The scanner's offset "
-        "algebra obligations of C15 are imported (R8). Decides these structural necessary conditions; does not decide "
-        "that decoded settings equal the embedded ones for all payloads."
+        "definition, value-flow agreement of the XOR key and scan position (flow-sensitive value terms), search-phase "
+        "order and 'a found candidate ends the search' by path-sensitive CFG exploration over the boolean locals, "
+        "first-candidate-wins (the candidate source is consumed once), exit analysis. The scanner's offset algebra "
+        "obligations of C15 are imported (R8). Decides these structural necessary conditions; does not decide that "
+        "decoded settings equal the embedded ones for all payloads."
     )
     rep.not_decided = [
         "equality of extracted settings with the embedded block for all payloads/offsets/buffer sizes",
@@ -46,25 +70,427 @@ def run(ctx):
         ctx.import_obligations("R9", fn)
 
 
-def _yield_values(fn):
-    out = []
-    for n in body_walk(fn):
-        if isinstance(n, (ast.Yield, ast.YieldFrom)):
-            out.append(n)
-    return out
+# ============================================================================ value terms (candidate for csverif.q)
+# ("param", name) ("const", typename, value) ("global", dotted) ("call", id) ("elem", id(for stmt)) ("item", base, i)
+# ("key", base, k) ("tuple", t...) ("dict", ((k, t), ...)) ("or", t...) ("and", t...) ("not", t) ("attr", base, name)
+# ("with", t) ("phi", (t, ...)) ("opaque", text)
+_MUTATORS = {"update", "setdefault", "pop", "popitem", "clear", "append", "extend", "insert", "remove", "sort", "reverse", "__setitem__", "__delitem__"}
 
 
-# ---------------------------------------------------------------------------- R1 / R2
+def _const(v):
+    return ("const", type(v).__name__, v)
+
+
+def _phi(alts):
+    flat = []
+    for a in alts:
+        for x in (a[1] if a[0] == "phi" else (a,)):
+            if x not in flat:
+                flat.append(x)
+    if len(flat) == 1:
+        return flat[0]
+    return ("phi", tuple(sorted(flat, key=repr)))
+
+
+def _alts(t):
+    return list(t[1]) if t[0] == "phi" else [t]
+
+
+def _item(base, i):
+    if base[0] == "phi":
+        return _phi([_item(a, i) for a in base[1]])
+    if base[0] == "tuple" and isinstance(i, int) and -(len(base) - 1) <= i < len(base) - 1:
+        return base[1:][i]
+    return ("item", base, i)
+
+
+def _key(base, k):
+    if base[0] == "phi":
+        return _phi([_key(a, k) for a in base[1]])
+    if base[0] == "dict":
+        for kk, v in base[1]:
+            if kk == k:
+                return v
+    return ("key", base, k)
+
+
+def _mentions(t, sub) -> bool:
+    if t == sub:
+        return True
+    return isinstance(t, tuple) and any(_mentions(x, sub) for x in t if isinstance(x, tuple))
+
+
+def _understood(t) -> bool:
+    """the term is fully modelled: no call result, no opaque part"""
+    if t[0] in ("call", "opaque"):
+        return False
+    return all(_understood(x) for x in t[1:] if isinstance(x, tuple) and x and isinstance(x[0], str))
+
+
+def _norm_test(test, flags):
+    """`flag is True` / `flag == False` / ... on a constant boolean local -> `flag` / `not flag` (for tv_eval)"""
+    if isinstance(test, ast.UnaryOp) and isinstance(test.op, ast.Not):
+        return ast.UnaryOp(op=ast.Not(), operand=_norm_test(test.operand, flags))
+    if isinstance(test, ast.BoolOp):
+        return ast.BoolOp(op=test.op, values=[_norm_test(x, flags) for x in test.values])
+    if isinstance(test, ast.Compare) and len(test.ops) == 1 and isinstance(test.ops[0], (ast.Is, ast.IsNot, ast.Eq, ast.NotEq)):
+        l, r = test.left, test.comparators[0]
+        if isinstance(l, ast.Constant):
+            l, r = r, l
+        if isinstance(l, ast.Name) and l.id in flags and isinstance(r, ast.Constant) and type(r.value) is bool:
+            positive = r.value == isinstance(test.ops[0], (ast.Is, ast.Eq))
+            return l if positive else ast.UnaryOp(op=ast.Not(), operand=l)
+    return test
+
+
+def _ceval(node, env=None):
+    """const_eval plus the byte-table idioms `bytes([..])`, `list/tuple(..)`, `range(..)` and single-generator
+    comprehensions over constant iterables.  Raises NotConst."""
+    try:
+        return const_eval(node, env)
+    except NotConst:
+        pass
+    except (TypeError, ValueError, KeyError) as e:
+        raise NotConst(str(e))
+    if isinstance(node, (ast.List, ast.Tuple)):
+        vals = [_ceval(e, env) for e in node.elts]
+        return vals if isinstance(node, ast.List) else tuple(vals)
+    if isinstance(node, ast.Call) and not node.keywords:
+        name = dotted(node.func)
+        if name == "range" and 1 <= len(node.args) <= 3:
+            a = [_ceval(x, env) for x in node.args]
+            if all(type(x) is int for x in a) and len(range(*a)) <= 65536:
+                return list(range(*a))
+        if name in ("bytes", "list", "tuple") and len(node.args) == 1:
+            v = _ceval(node.args[0], env)
+            try:
+                return {"bytes": bytes, "list": list, "tuple": tuple}[name](v)
+            except (TypeError, ValueError) as e:
+                raise NotConst(str(e))
+    if isinstance(node, (ast.ListComp, ast.GeneratorExp)) and len(node.generators) == 1:
+        g = node.generators[0]
+        if isinstance(g.target, ast.Name) and not g.ifs and not g.is_async:
+            it = _ceval(g.iter, env)
+            out = []
+            for x in it:
+                def env2(n, x=x):
+                    if n == g.target.id:
+                        return x
+                    if env is None:
+                        raise KeyError(n)
+                    return env(n)
+                out.append(_ceval(node.elt, env2))
+            return out
+    raise NotConst(src(node))
+
+
+class _Val:
+    """Flow-sensitive value terms of the expressions of one function."""
+
+    def __init__(self, ctx, f):
+        self.ctx, self.f, self.fn = ctx, f, f.node
+        self.cfg = ctx.cfg(f)
+        self.fv = FuncView.of(f.node)
+        self.params = params(f.node)
+        self.locals = set(self.params) | {n.id for n in body_walk(f.node) if isinstance(n, ast.Name) and isinstance(n.ctx, ast.Store)}
+        a = f.node.args
+        for x in (a.vararg, a.kwarg):
+            if x is not None:
+                self.locals.add(x.arg)
+        self.node = {}  # id -> ast node of ("call", id) / ("elem", id)
+        self._active = set()
+        # locals whose object is changed in place somewhere (item/attribute stores, mutating method calls): a literal
+        # seen at their definition does not describe their later content
+        self.mutated = set()
+        for n in body_walk(f.node):
+            b = None
+            if isinstance(n, ast.Subscript) and isinstance(n.ctx, (ast.Store, ast.Del)):
+                b = n.value
+            elif isinstance(n, ast.Call) and isinstance(n.func, ast.Attribute) and n.func.attr in _MUTATORS:
+                b = n.func.value
+            elif isinstance(n, ast.AugAssign):
+                b = n.target
+            if isinstance(b, ast.Name):
+                self.mutated.add(b.id)
+
+    # ------------------------------------------------------------------------------------------------ expressions
+    def term(self, e, at=None, depth=0):
+        if e is None:
+            return _const(None)
+        e = strip_cast(e)
+        at = at if at is not None else e
+        if depth > 24:
+            return ("opaque", src(e))
+        d1 = depth + 1
+        if isinstance(e, ast.Constant):
+            return _const(e.value)
+        if isinstance(e, ast.Name):
+            return self._name(e, at, d1)
+        if isinstance(e, ast.NamedExpr):
+            return self.term(e.value, at, d1)
+        if isinstance(e, (ast.BinOp, ast.UnaryOp)) and not (isinstance(e, ast.UnaryOp) and isinstance(e.op, ast.Not)):
+            v = self._fold(e, at, d1)
+            if v is not None:
+                return v
+            return ("opaque", src(e))
+        if isinstance(e, (ast.Tuple, ast.List)):
+            if any(isinstance(x, ast.Starred) for x in e.elts):
+                return ("opaque", src(e))
+            return ("tuple",) + tuple(self.term(x, at, d1) for x in e.elts)
+        if isinstance(e, ast.Dict):
+            if any(not isinstance(k, ast.Constant) for k in e.keys):
+                return ("opaque", src(e))
+            return ("dict", tuple((k.value, self.term(v, at, d1)) for k, v in zip(e.keys, e.values)))
+        if isinstance(e, ast.Attribute):
+            d = dotted(e)
+            if d is not None and d.split(".")[0] not in self.locals:
+                return ("global", d)
+            return ("attr", self.term(e.value, at, d1), e.attr)
+        if isinstance(e, ast.Subscript):
+            base = self.term(e.value, at, d1)
+            if isinstance(e.slice, ast.Slice):
+                return ("opaque", src(e))
+            idx = self.term(e.slice, at, d1)
+            if idx[0] == "const" and idx[1] == "int":
+                return _item(base, idx[2])
+            if idx[0] == "const" and idx[1] == "str":
+                return _key(base, idx[2])
+            return ("opaque", src(e))
+        if isinstance(e, ast.Call):
+            if (isinstance(e.func, ast.Attribute) and e.func.attr == "get" and len(e.args) == 1 and not e.keywords
+                    and isinstance(e.args[0], ast.Constant) and isinstance(e.args[0].value, str)):
+                base = self.term(e.func.value, at, d1)
+                if base[0] in ("item", "key", "elem", "dict", "phi"):  # a mapping reached through the tracked values
+                    return _key(base, e.args[0].value)
+            if dotted(e.func) == "dict" and not e.args and e.keywords and all(k.arg is not None for k in e.keywords) and "dict" not in self.locals:
+                return ("dict", tuple((k.arg, self.term(k.value, at, d1)) for k in e.keywords))
+            self.node[id(e)] = e
+            return ("call", id(e))
+        if isinstance(e, ast.BoolOp):
+            return ("or" if isinstance(e.op, ast.Or) else "and",) + tuple(self.term(v, at, d1) for v in e.values)
+        if isinstance(e, ast.UnaryOp):
+            return ("not", self.term(e.operand, at, d1))
+        if isinstance(e, ast.IfExp):
+            t, a, b = self.term(e.test, at, d1), self.term(e.body, at, d1), self.term(e.orelse, at, d1)
+            if t == a:  # `x if x else y` is `x or y`
+                return ("or", a, b)
+            if t == ("not", b):  # `y if not x else x`
+                return ("or", b, a)
+            return _phi([a, b])
+        return ("opaque", src(e))
+
+    def _fold(self, e, at, depth):
+        """Arithmetic on constants (incl. single-definition local constants)."""
+        def env(name):
+            if name in self.locals:
+                t = self._name(ast.Name(id=name, ctx=ast.Load()), at, depth)
+            else:
+                t = self._global_const(name)
+            if t is None or t[0] != "const":
+                raise KeyError(name)
+            return t[2]
+        try:
+            v = const_eval(e, env)
+        except (NotConst, TypeError, ValueError, KeyError):
+            return None
+        if isinstance(v, (int, bytes, str, bool)) or v is None:
+            return _const(v)
+        return None
+
+    def _global_const(self, name):
+        mod = self.f.module
+        if name in mod.consts:
+            try:
+                v = _ceval(mod.consts[name], module_env(mod))
+            except NotConst:
+                return None
+            if isinstance(v, (int, bytes, str, bool)):
+                return _const(v)
+        return None
+
+    def _name(self, e, at, depth):
+        if e.id not in self.locals:
+            return ("global", e.id)
+        rd = reaching_defs(self.ctx, self.f, e.id, at)
+        if not rd:
+            return ("opaque", e.id)
+        alts = []
+        for st, v in rd:
+            key = (e.id, id(st))
+            if st is self.fn:
+                alts.append(("param", e.id))
+            elif key in self._active:
+                alts.append(("opaque", "loop-carried " + e.id))
+            else:
+                self._active.add(key)
+                try:
+                    alts.append(self.term(v, st, depth) if v is not None else self._bound(st, e.id, depth))
+                finally:
+                    self._active.discard(key)
+        if e.id in self.mutated:
+            alts = [("opaque", "container changed in place") if a[0] in ("dict", "tuple") else a for a in alts]
+        if len(alts) > 1 and _const(None) in alts and self._known_not_none(e.id, at, [st for st, _v in rd]):
+            alts = [a for a in alts if a != _const(None)]
+        return _phi(alts)
+
+    def _known_not_none(self, name, at, def_stmts) -> bool:
+        """the use is dominated by a test that excludes None for `name`, and no definition lies between test and use"""
+        cfg = self.cfg
+        use = self.stmt_node(at)
+        if use is None:
+            return False
+        for txt, pol, node in dominating_conditions(self.ctx, self.f, at):
+            if not ((txt == f"{name} is not None" and pol) or (txt == f"{name} is None" and not pol) or (txt == name and pol)):
+                continue
+            st = self.fv.stmt_of(node)
+            if st is None or not cfg.has(st):
+                continue
+            tn = cfg.node(st)
+            between = False
+            for d in def_stmts:
+                if d is self.fn:
+                    continue
+                ds = d if isinstance(d, ast.stmt) else self.fv.stmt_of(d)
+                if ds is None or not cfg.has(ds):
+                    continue
+                dn = cfg.edge_node(ds, "iter") if isinstance(ds, (ast.For, ast.AsyncFor)) else cfg.node(ds)
+                if dn != tn and cfg.reaches(tn, dn, avoiding=[use]) and cfg.reaches(dn, use, avoiding=[tn]):
+                    between = True
+            if not between:
+                return True
+        return False
+
+    def _bound(self, st, name, depth):
+        def proj(target, base):
+            if isinstance(target, ast.Name):
+                return base if target.id == name else None
+            if isinstance(target, (ast.Tuple, ast.List)) and not any(isinstance(x, ast.Starred) for x in target.elts):
+                for i, t in enumerate(target.elts):
+                    r = proj(t, _item(base, i))
+                    if r is not None:
+                        return r
+            return None
+
+        if isinstance(st, (ast.For, ast.AsyncFor)):
+            self.node[id(st)] = st
+            r = proj(st.target, ("elem", id(st)))
+            return r if r is not None else ("opaque", name)
+        if isinstance(st, ast.Assign):
+            for t in st.targets:
+                r = proj(t, self.term(st.value, st, depth))
+                if r is not None:
+                    return r
+        if isinstance(st, (ast.With, ast.AsyncWith)):
+            for it in st.items:
+                if it.optional_vars is not None and dotted(it.optional_vars) == name:
+                    return ("with", self.term(it.context_expr, st, depth))
+        return ("opaque", name)
+
+    # ------------------------------------------------------------------------------------------------ queries
+    def call_of(self, t):
+        return self.node.get(t[1]) if t[0] == "call" else None
+
+    def callee_fq(self, call):
+        cal = self.ctx.rs.resolve_call(self.f, call)
+        if cal.kind == "func" and cal.func is not None:
+            return cal.func.fq
+        return cal.fq or ""
+
+    def args(self, call, method=False):
+        """callee parameter -> argument expression (defaults filled in), in the order of the callee's signature, for a
+        call that resolves to a package function."""
+        cal = self.ctx.rs.resolve_call(self.f, call)
+        if cal.kind != "func" or cal.func is None:
+            return None
+        b = bind_args(call, cal.func.node, skip_self=method)
+        order = params(cal.func.node)[1 if method else 0:]
+        return {p: b.get(p) for p in order}
+
+    def is_call_to(self, t, fq):
+        return all(a[0] == "call" and self.callee_fq(self.node[a[1]]) == fq for a in _alts(t))
+
+    def calls(self, fq):
+        return [c for c in fn_calls(self.fn) if self.callee_fq(c) == fq]
+
+    def loops_over(self, call):
+        """for loops whose iterable is (a cast / temporary of) the value of `call`."""
+        want = ("call", id(call))
+        return [st for st in statements(self.fn) if isinstance(st, (ast.For, ast.AsyncFor)) and self.term(st.iter, st) == want]
+
+    def stmt_node(self, n):
+        st = self.fv.stmt_of(n)
+        return self.cfg.node(st) if st is not None and self.cfg.has(st) else None
+
+    def show(self, t, depth=0):
+        """Rendering of a term for details (no names of locals of the analysed code)."""
+        if depth > 5:
+            return "..."
+        s = lambda x: self.show(x, depth + 1)
+        h = t[0]
+        if h == "param":
+            return f"<parameter {t[1]}>"
+        if h == "const":
+            return repr(t[2])
+        if h == "global":
+            return t[1]
+        if h == "call":
+            c = self.node[t[1]]
+            d = dotted(c.func)
+            if d is not None and d.split(".")[0] not in self.locals - {"cls", "self"}:
+                return f"{d}(...)"
+            return f"<object>.{c.func.attr}(...)" if isinstance(c.func, ast.Attribute) else "<callable>(...)"
+        if h == "elem":
+            return "<loop element>"
+        if h == "item":
+            return f"{s(t[1])}[{t[2]}]"
+        if h == "key":
+            return f"{s(t[1])}[{t[2]!r}]"
+        if h == "tuple":
+            return "(" + ", ".join(s(x) for x in t[1:]) + ")"
+        if h == "dict":
+            return "{" + ", ".join(f"{k!r}: {s(v)}" for k, v in t[1]) + "}"
+        if h in ("or", "and"):
+            return "(" + f" {h} ".join(s(x) for x in t[1:]) + ")"
+        if h == "not":
+            return "not " + s(t[1])
+        if h == "attr":
+            return f"{s(t[1])}.{t[2]}"
+        if h == "with":
+            return f"<with {s(t[1])}>"
+        if h == "phi":
+            return " | ".join(s(x) for x in t[1])
+        return "?"
+
+
+def _trivial(st) -> bool:
+    """A statement that cannot raise (its exceptional CFG edge is infeasible)."""
+    if isinstance(st, (ast.Pass, ast.Break, ast.Continue, ast.Global, ast.Nonlocal)):
+        return True
+    if isinstance(st, ast.Assign):
+        return isinstance(st.value, ast.Constant) and all(isinstance(t, ast.Name) for t in st.targets)
+    if isinstance(st, ast.AnnAssign):
+        return (st.value is None or isinstance(st.value, ast.Constant)) and isinstance(st.target, ast.Name)
+    return False
+
+
+def _receiver_is(v, call, t_want, attr) -> bool:
+    return isinstance(call.func, ast.Attribute) and call.func.attr == attr and v.term(call.func.value, call) == t_want
+
+
+# ============================================================================ R1 / R2
 def r1_r2(ctx):
     mod = ctx.repo.module("beacon")
     node = ctx.repo.const("beacon.DEFAULT_XOR_KEYS")
     try:
-        val = list(const_eval(node, module_env(mod)))
+        val = list(_ceval(node, module_env(mod)))
     except (NotConst, TypeError):
         val = None
-    ctx.ob("R1", "TABLE", "beacon.py::DEFAULT_XOR_KEYS", src(node)[:60], val == REF_DEFAULT_KEYS,
-           f"DEFAULT_XOR_KEYS evaluates to {val!r}; required {REF_DEFAULT_KEYS!r} in this order", node)
-    f = ctx.repo.func("beacon.find_beacon_config_bytes")
+    if val is None:
+        ctx.undecided("R1", "TABLE", "beacon.py::DEFAULT_XOR_KEYS", "default key table", f"DEFAULT_XOR_KEYS is not a constant table this rule can evaluate: {src(node)[:80]}", node)
+    else:
+        ctx.ob("R1", "TABLE", "beacon.py::DEFAULT_XOR_KEYS", "default key table", val == REF_DEFAULT_KEYS,
+               f"DEFAULT_XOR_KEYS evaluates to {val!r}; required {REF_DEFAULT_KEYS!r} in this order", node)
+    f = ctx.repo.func(FQ_FIND)
     cd = ctx.cdefs("beacon").get("cs_struct")
     if cd is None:
         ctx.rep.error("anchor vanished: cs_struct definitions in beacon.py")
@@ -76,306 +502,809 @@ def r1_r2(ctx):
         "type": stype.by_name().get("TYPE_SHORT", -1),
         "length": 2,
     }) + b"\x00"
-    hdr = None
-    for st, v in assignments_to(f.node, "CONFIG_HEADER"):
-        hdr = v
-    # the needle: first argument of xor() whose result is handed to the scanner
-    scans = calls_to(ctx, f, target_fq="utils.iter_find_needle")
-    needle_const = None
-    needle_node = None
-    if scans:
-        a = scans[0].args[1] if len(scans[0].args) > 1 else kwarg(scans[0], "needle")
-        o = origin(f.node, a) if a is not None else None
-        if isinstance(o, ast.Call) and o.args:
-            needle_node = origin(f.node, o.args[0])
+    v = _Val(ctx, f)
+    if len(v.params) < 2:
+        ctx.undecided("R2", "TABLE", f, "needle header", "find_beacon_config_bytes no longer takes (file, key)", f.node)
+        return
+    fh_t = ("param", v.params[0])
+    endian = "big" if cd.endian == ">" else "little"
+    # the needle: data operand of the xor() whose result is handed to the scanner
+    scans = v.calls(FQ_SCANNER)
+    if not scans:
+        ctx.undecided("R2", "TABLE", f, "needle header", "no call of the needle scanner located in find_beacon_config_bytes", f.node)
+    for sc in scans:
+        a = v.args(sc) or {}
+        nt = v.term(a.get("needle"), sc) if a.get("needle") is not None else ("opaque", "?")
+        data_t = None
+        if nt[0] == "call" and v.callee_fq(v.node[nt[1]]) == FQ_XOR:
+            xa = v.args(v.node[nt[1]]) or {}
+            if xa.get("data") is not None:
+                data_t = v.term(xa["data"], v.node[nt[1]])
+        elif nt[0] == "const":
+            data_t = None
+            ctx.ob("R2", "TABLE", f, "needle header", False, f"scan needle is the constant {nt[2]!r}, not the header XORed with the key", sc)
+            continue
+        if data_t is not None and data_t[0] == "global":
+            data_t = v._global_const(data_t[1]) or data_t
+        if data_t is None or data_t[0] != "const":
+            ctx.undecided("R2", "TABLE", f, "needle header", "the scan needle is not xor(<constant header>, key): " + (v.show(data_t) if data_t else v.show(nt)), sc)
+        else:
+            ctx.ob("R2", "TABLE", f, "needle header", data_t[2] == ref,
+                   f"scan needle (before XOR) is {data_t[2]!r}; serialisation of Setting(SETTING_PROTOCOL, TYPE_SHORT, length=2)+00 "
+                   f"from CS_DEF ({endian}-endian) is {ref!r}", sc)
+    # the block size: argument of the read() on the file that produces the yielded block
+    reads = []
+    for y in (n for n in body_walk(f.node) if isinstance(n, ast.Yield) and n.value is not None):
+        yc = v.call_of(v.term(y.value, y))
+        if yc is not None and v.callee_fq(yc) == FQ_XOR:
+            rd = v.call_of(v.term((v.args(yc) or {}).get("data"), yc))
+            if rd is not None and _receiver_is(v, rd, fh_t, "read") and not any(rd is x for x in reads):
+                reads.append(rd)
+    if not reads:
+        ctx.undecided("R2", "TABLE", f, "block size", "no read() on the file parameter that feeds a yielded block located", f.node)
+    for c in reads:
+        st = v.term(c.args[0], c) if c.args and not c.keywords else ("opaque", "?")
+        if st[0] == "global":
+            st = v._global_const(st[1]) or st
+        if st[0] == "const":
+            ctx.ob("R2", "TABLE", f, "block size", st[1] == "int" and st[2] == REF_PATCH_SIZE, f"block size read is {st[2]!r} (4096 required)", c)
+        else:
+            ctx.undecided("R2", "TABLE", f, "block size", f"size of the block read is not a constant: {src(c)}", c)
+
+
+# ============================================================================ R3
+def r3(ctx):
+    f = ctx.repo.func(FQ_FIND)
+    v = _Val(ctx, f)
+    cfg = v.cfg
+    if len(v.params) < 2:
+        ctx.undecided("R3", "AGREE", f, "scanner call", "find_beacon_config_bytes no longer takes (file, key)", f.node)
+        return
+    fh_p, key_p = v.params[0], v.params[1]
+    fh_t, key_t = ("param", fh_p), ("param", key_p)
+    scans = v.calls(FQ_SCANNER)
+    if not scans:
+        ctx.undecided("R3", "AGREE", f, "scanner call", "no call of iter_find_needle located: the search is implemented differently", f.node)
+        return
+
+    def fh_uses(exclude=()):
+        """statements that touch the file: method calls on it, or calls that receive it"""
+        out = []
+        for c in fn_calls(f.node):
+            if any(c is x for x in exclude):
+                continue
+            recv = isinstance(c.func, ast.Attribute) and v.term(c.func.value, c) == fh_t
+            passed = any(v.term(a, c) == fh_t for a in list(c.args) + [k.value for k in c.keywords] if not isinstance(a, ast.Starred))
+            if recv or passed:
+                out.append(c)
+        return out
+
+    for sc in scans:
+        a = v.args(sc)
+        if a is None:
+            ctx.undecided("R3", "AGREE", f, "scanner arguments", "scanner call could not be bound to its parameters", sc)
+            continue
+        fp_t = v.term(a.get("fp"), sc)
+        so_t = v.term(a.get("start_offset"), sc)
+        mo_t = v.term(a.get("max_offset"), sc)
+        start_ok = so_t == _const(0)
+        if so_t == _const(None):
+            # scanning from the current position is scanning from 0 iff a seek(0) on the file dominates the scan
+            scn = v.stmt_node(sc)
+            for c in fn_calls(f.node):
+                if _receiver_is(v, c, fh_t, "seek") and len(c.args) == 1 and not c.keywords and v.term(c.args[0], c) == _const(0):
+                    sn = v.stmt_node(c)
+                    if sn is not None and scn is not None and cfg.dominates(sn, scn) and not any(
+                            (un := v.stmt_node(u)) is not None and un not in (sn, scn) and cfg.reaches(sn, un, avoiding=[scn]) and cfg.reaches(un, scn) for u in fh_uses(exclude=(c, sc))):
+                        start_ok = True
+        lim_ok = mo_t in (_const(0), _const(None), _const(False))
+        ctx.ob("R3", "AGREE", f, "scanner arguments", fp_t == fh_t and start_ok and lim_ok,
+               f"scanner runs over {v.show(fp_t)} from start_offset={v.show(so_t)} with max_offset={v.show(mo_t)} (required: the file parameter, 0, no limit)", sc)
+        nt = v.term(a.get("needle"), sc)
+        ncall = v.call_of(nt)
+        if ncall is None or v.callee_fq(ncall) != FQ_XOR:
+            if nt[0] in ("const", "param", "global"):
+                ctx.ob("R3", "AGREE", f, "needle key", False, f"needle is {v.show(nt)}: not XORed with the key parameter", sc)
+            else:
+                ctx.undecided("R3", "AGREE", f, "needle key", f"needle is not built by xor(): {v.show(nt)}", sc)
+        else:
+            xa = v.args(ncall) or {}
+            kt = v.term(xa.get("key"), ncall)
+            ctx.ob("R3", "AGREE", f, "needle key", kt == key_t, f"needle is XORed with {v.show(kt)} (must be parameter {key_p})", sc)
+        loops = v.loops_over(sc)
+        if len(loops) != 1:
+            ctx.undecided("R3", "AGREE", f, "scan loop", f"the scanner result is not consumed by exactly one for loop ({len(loops)} found)", sc)
+            continue
+        loop = loops[0]
+        header, it_edge = cfg.node(loop), cfg.edge_node(loop, "iter")
+        pos_t = ("elem", id(loop))
+        v.node[id(loop)] = loop
+        ys = [y for y in ast.walk(loop) if isinstance(y, ast.Yield) and v.fv.enclosing(y, (ast.FunctionDef, ast.AsyncFunctionDef, ast.Lambda)) is None]
+        if not ys:
+            ctx.undecided("R3", "AGREE", f, "yielded block", "no yield inside the scan loop: blocks are delivered differently", loop)
+            continue
+        for y in ys:
+            yt = v.term(y.value, y) if y.value is not None else _const(None)
+            yc = v.call_of(yt)
+            if yc is None or v.callee_fq(yc) != FQ_XOR:
+                if yt[0] in ("const", "param", "global", "elem"):
+                    ctx.ob("R3", "AGREE", f, "yielded block", False, f"yields {v.show(yt)} (must be xor(<block read at the hit>, {key_p}))", y)
+                else:
+                    ctx.undecided("R3", "AGREE", f, "yielded block", f"yielded value is not built by xor(): {v.show(yt)}", y)
+                continue
+            xa = v.args(yc) or {}
+            kt = v.term(xa.get("key"), yc)
+            ctx.ob("R3", "AGREE", f, "yielded block key", kt == key_t, f"block is un-XORed with {v.show(kt)} (must be parameter {key_p})", y)
+            dt = v.term(xa.get("data"), yc)
+            rd = v.call_of(dt)
+            if rd is None or not _receiver_is(v, rd, fh_t, "read"):
+                if dt[0] in ("const", "param", "global", "elem"):
+                    ctx.ob("R3", "AGREE", f, "block read", False, f"un-XORed data is {v.show(dt)}, not a block read from the file", y)
+                else:
+                    ctx.undecided("R3", "AGREE", f, "block read", f"the un-XORed data is not a read() on the file parameter: {v.show(dt)}", y)
+                continue
+            sz = v.term(rd.args[0], rd) if rd.args and not rd.keywords else ("opaque", "?")
+            if sz[0] == "global":
+                sz = v._global_const(sz[1]) or sz
+            if sz[0] == "const":
+                ctx.ob("R3", "AGREE", f, "block read size", sz == _const(REF_PATCH_SIZE), f"block read size is {sz[2]!r} (must be {REF_PATCH_SIZE})", rd)
+            else:
+                ctx.undecided("R3", "AGREE", f, "block read size", f"block read size is not constant: {src(rd)}", rd)
+            # the read happens at the hit: a seek(<hit>) on the file precedes it in the same iteration, nothing that
+            # moves the file position in between
+            rn = v.stmt_node(rd)
+            seeks = [c for c in fn_calls(f.node) if _receiver_is(v, c, fh_t, "seek") and any(c is x for x in ast.walk(loop))]
+            good, bad = [], []
+            for c in seeks:
+                pa = list(c.args) + [None, None]
+                off = pa[0] if c.args else next((k.value for k in c.keywords if k.arg in ("offset", "pos", "target", "cookie")), None)
+                wh = pa[1] if len(c.args) > 1 else next((k.value for k in c.keywords if k.arg == "whence"), None)
+                wt = v.term(wh, c) if wh is not None else _const(0)
+                abs_ok = wt in (_const(0), ("global", "io.SEEK_SET"), ("global", "os.SEEK_SET"), ("global", "SEEK_SET"))
+                sn = v.stmt_node(c)
+                if sn is None or rn is None or not (cfg.reaches(sn, rn, avoiding=[header]) or sn == rn):
+                    continue
+                (good if off is not None and v.term(off, c) == pos_t and abs_ok else bad).append(c)
+            if not seeks:
+                ctx.undecided("R3", "AGREE", f, "seek to the hit", "no seek() on the file in the scan loop: the block is positioned differently", loop)
+            else:
+                ok = False
+                detail = "no seek to the scanner's offset precedes the block read"
+                for c in good:
+                    sn = v.stmt_node(c)
+                    every = not cfg.reaches(it_edge, rn, avoiding=[sn, header])
+                    between = [u for u in fh_uses(exclude=(c, rd)) if (un := v.stmt_node(u)) is not None and un not in (sn, rn, header)
+                               and cfg.reaches(sn, un, avoiding=[header]) and cfg.reaches(un, rn, avoiding=[header])]
+                    if every and not between:
+                        ok = True
+                        detail = "every iteration seeks to the scanner's offset (absolute) before reading the block; nothing touches the file in between"
+                    elif not every:
+                        detail = "the block read can be reached without the seek to the hit"
+                    else:
+                        detail = "the file is touched between the seek and the block read: " + ", ".join(src(u) for u in between)
+                if not good and bad:
+                    detail = "block read position: " + ", ".join(src(s) for s in bad) + " (must be exactly the scanner's offset, absolute)"
+                ctx.ob("R3", "AGREE", f, "seek to the hit", ok, detail, loop)
+        # every hit is yielded: no path through the scan loop body skips the yield (a filtered hit is a lost block) or
+        # leaves the loop
+        ynodes = [n for n in (v.stmt_node(y) for y in ys) if n is not None]
+        skip = cfg.reaches(it_edge, header, avoiding=ynodes)
+        leave = cfg.reaches(it_edge, EXIT, avoiding=[header])
+        if skip:
+            detail = "a needle hit can be skipped: " + " -> ".join(cfg.witness_path(it_edge, header, avoiding=ynodes)[-5:])
+        elif leave:
+            detail = "the scan loop can be left after a hit (later hits are lost): " + " -> ".join(cfg.witness_path(it_edge, EXIT, avoiding=[header])[-5:])
+        else:
+            detail = "each needle hit leads to a yielded block and the scan continues (no conditional skip, break or return in the scan loop)"
+        ctx.ob("R3", "DOM", f, "every hit yielded", not skip and not leave, detail, loop)
+
+
+# ============================================================================ R4 / R5
+class _Sites:
+    """The search sites of iter_beacon_config_blocks, located by role."""
+
+    def __init__(self, ctx, f):
+        self.ctx, self.f = ctx, f
+        self.v = v = _Val(ctx, f)
+        self.fobj_t = ("param", v.params[0])
+        self.sites = []      # dict(call, kind, inner, outer, key_t, yields)
+        self.unlocated = []  # (call, why)
+        for call in v.calls(FQ_FIND):
+            a = v.args(call)
+            if a is None or len(a) < 2 or any(x is None for x in list(a.values())[:2]):
+                self.unlocated.append((call, "arguments not understood"))
+                continue
+            names = list(a)
+            file_t = v.term(a[names[0]], call)
+            key_t = v.term(a[names[1]], call)
+            if file_t == self.fobj_t:
+                kind = "raw"
+            elif all(x[0] == "call" and v.callee_fq(v.node[x[1]]) == FQ_XORFILE and self._wraps_fobj(v.node[x[1]]) for x in _alts(file_t)):
+                kind = "xorencoded"
+            else:
+                self.unlocated.append((call, f"searched file is {v.show(file_t)}: neither the file parameter nor its XorEncoded view"))
+                continue
+            inner = v.loops_over(call)
+            if len(inner) != 1:
+                self.unlocated.append((call, "the block search is not consumed by a for loop"))
+                continue
+            inner = inner[0]
+            outer = None
+            if key_t[0] == "elem":
+                outer = v.node.get(key_t[1])
+            ys = [y for y in ast.walk(inner) if isinstance(y, ast.Yield)]
+            self.sites.append(dict(call=call, kind=kind, inner=inner, outer=outer, key_t=key_t, yields=ys, file_t=file_t))
+        self.retries = v.calls(f.fq)
+
+    def _wraps_fobj(self, call):
+        a = self.v.args(call, method=True)
+        if a is None:
+            return False
+        first = next(iter(a.values()), None)
+        return first is not None and self.v.term(first, call) == self.fobj_t
+
+    def effective_keys(self, e, at):
+        """Is expression e (evaluated at `at`) the effective key list `<xor_keys parameter> or DEFAULT_XOR_KEYS`?
+        True / False (a key list, but not that one) / None (not understood)."""
+        v = self.v
+        P, D = ("param", v.params[1]), ("global", "DEFAULT_XOR_KEYS")
+        if e is None:
+            return None, _const(None)
+        t = v.term(e, at)
+        if t == ("or", P, D):
+            return True, t
+        if t[0] == "phi" and set(t[1]) == {P, D} and isinstance(strip_cast(e), ast.Name):
+            # `if not xor_keys: xor_keys = DEFAULT_XOR_KEYS`: the default is installed exactly when the parameter is falsy
+            name = strip_cast(e).id
+            cfg = v.cfg
+            use = v.stmt_node(at)
+            for st, val in reaching_defs(self.ctx, self.f, name, at):
+                if st is v.fn or val is None or v.term(val, st) != D:
+                    continue
+                conds = dominating_conditions(self.ctx, self.f, st)
+                if any(txt == P[1] and pol is True for txt, pol, _n in conds):
+                    return False, t  # the default replaces keys the caller did supply
+                if not any(txt == P[1] and pol is False for txt, pol, _n in conds):
+                    return None, t
+                # ... and whenever the parameter is falsy: the falsy edge cannot reach the use without the assignment
+                sn = cfg.node(st)
+                for n, s in cfg.stmt.items():
+                    if isinstance(s, ast.If):
+                        for lab, want in (("true", True), ("false", False)):
+                            edge = cfg.edge_node(s, lab)
+                            val_p = tv_eval(s.test, {P[1]: False})
+                            if val_p is want and cfg.dominates(edge, sn) and use is not None and cfg.reaches(edge, use, avoiding=[sn]):
+                                return False, t
+                return True, t
+            return None, t
+        if all(a in (P, D) or (a[0] == "const") for a in _alts(t)):
+            return False, t
+        return None, t
+
+
+def _bool_flags(fn, v):
+    """locals that only ever hold constant booleans: name -> [(stmt, value)]"""
+    out = {}
+    for name in sorted(v.locals - set(v.params)):
+        defs = assignments_to(fn, name)
+        if defs and all(isinstance(st, (ast.Assign, ast.AnnAssign)) and isinstance(val, ast.Constant) and type(val.value) is bool for st, val in defs):
+            out[name] = defs
+    return out
+
+
+def _atoms(test):
+    if isinstance(test, ast.UnaryOp) and isinstance(test.op, ast.Not):
+        return _atoms(test.operand)
+    if isinstance(test, ast.BoolOp):
+        out = []
+        for x in test.values:
+            out.extend(_atoms(x))
+        return out
+    return [test]
+
+
+def _mutated_names(root):
+    """names (re)bound or mutated under root: assignment targets, bases of attribute/subscript stores, receivers of
+    method calls"""
+    out = set()
+    for n in ast.walk(root):
+        if isinstance(n, ast.Name) and isinstance(n.ctx, ast.Store):
+            out.add(n.id)
+        elif isinstance(n, (ast.Attribute, ast.Subscript)) and isinstance(n.ctx, ast.Store):
+            b = n
+            while isinstance(b, (ast.Attribute, ast.Subscript)):
+                b = b.value
+            if isinstance(b, ast.Name):
+                out.add(b.id)
+        elif isinstance(n, ast.Call) and isinstance(n.func, ast.Attribute):
+            b = n.func.value
+            while isinstance(b, (ast.Attribute, ast.Subscript)):
+                b = b.value
+            if isinstance(b, ast.Name):
+                out.add(b.id)
+    return out
+
+
+def _explore(ctx, f, v, marks, targets, recorders):
+    """Path-sensitive exploration of f's CFG.  State: (node, values of the constant boolean locals, set of marks passed,
+    'an uninterpreted test on a recorder was passed').  `marks`: cfg node -> label added on arrival; `targets`: cfg node
+    -> name.  Branch edges that are infeasible under the known boolean locals are not followed; exceptional edges are
+    followed only if a statement that may raise can follow.  Returns {(target name, mark): 'definite'|'unknown'}."""
+    cfg = v.cfg
+    flags = _bool_flags(f.node, v)
+    fnames = sorted(flags)
+    flag_set = {}
+    for name, defs in flags.items():
+        for st, val in defs:
+            if cfg.has(st):
+                flag_set[cfg.node(st)] = (fnames.index(name), val.value)
+    by_id = {id(s): s for s in cfg.stmt.values()}
+    handlers = {n for n, s in cfg.stmt.items() if isinstance(s, ast.ExceptHandler)}
+    start = (ENTRY, tuple([None] * len(fnames)), frozenset(), False)
+    seen = {start}
+    stack = [start]
+    found = {}
+    while stack:
+        node, vals, passed, unk = stack.pop()
+        assume = {fnames[i]: x for i, x in enumerate(vals) if x is not None}
+        for m in cfg.g.successors(node):
+            unk2 = unk
+            if m in handlers:
+                nxt = [x for x in cfg.g.successors(node) if x not in handlers and x != RAISE]
+                if nxt and all(x in cfg.stmt and _trivial(cfg.stmt[x]) for x in nxt) and not (node in cfg.stmt and isinstance(cfg.stmt[node], ast.Raise)):
+                    continue
+            if m[0] == "e" and m[2] in ("true", "false"):
+                st = by_id.get(m[1])
+                if st is not None and isinstance(st, (ast.If, ast.While)):
+                    test = _norm_test(st.test, flags)
+                    val = tv_eval(test, assume)
+                    if val is True and m[2] == "false" or val is False and m[2] == "true":
+                        continue
+                    if val is None and passed:
+                        rec = set(fnames)
+                        for p in passed:
+                            rec |= recorders.get(p, set())
+                        for a in _atoms(test):
+                            if tv_eval(a, assume) is None and {n.id for n in ast.walk(a) if isinstance(n, ast.Name)} & rec:
+                                unk2 = True
+            vals2 = vals
+            if m in flag_set:
+                i, b = flag_set[m]
+                vals2 = vals[:i] + (b,) + vals[i + 1:]
+            if m in targets:
+                for p in passed:
+                    k = (targets[m], p)
+                    if not unk2:
+                        found[k] = "definite"
+                    else:
+                        found.setdefault(k, "unknown")
+            passed2 = passed | {marks[m]} if m in marks else passed
+            s2 = (m, vals2, passed2, unk2)
+            if s2 not in seen:
+                seen.add(s2)
+                stack.append(s2)
+    return found
+
+
+def r4_r5(ctx):
+    f = ctx.repo.func(FQ_BLOCKS)
+    if len(params(f.node)) < 4:
+        ctx.undecided("R4", "AGREE", f, "block search sites", "iter_beacon_config_blocks no longer takes (file, keys, xordecode, all-keys)", f.node)
+        return
+    S = _Sites(ctx, f)
+    v, cfg = S.v, S.v.cfg
+    ps = v.params
+    for call, why in S.unlocated:
+        ctx.undecided("R4", "AGREE", f, "block search site", why, call)
+    if not S.sites:
+        ctx.undecided("R4", "AGREE", f, "block search sites", "no `for <block> in find_beacon_config_bytes(<file>, <key>)` search located", f.node)
+    n_yields = 0
+    for s in S.sites:
+        kind, call, inner, outer = s["kind"], s["call"], s["inner"], s["outer"]
+        tag = f"[{kind}]"
+        # the key: element of a loop over the effective key list
+        if outer is None or not any(a is outer for a in v.fv.ancestors(inner)):
+            if s["key_t"][0] in ("const", "param", "global"):
+                ctx.ob("R4", "AGREE", f, "searched key " + tag, False, f"the searched key is {v.show(s['key_t'])}, not the element of a loop over the key list", call)
+            else:
+                ctx.undecided("R4", "AGREE", f, "searched key " + tag, f"the searched key is not the variable of an enclosing key loop: {v.show(s['key_t'])}", call)
+        else:
+            eff, kt = S.effective_keys(outer.iter, outer)
+            if eff is None:
+                ctx.undecided("R4", "AGREE", f, "key list " + tag, f"the key loop iterates {v.show(kt)}: not recognised as `<{ps[1]}> or DEFAULT_XOR_KEYS`", outer)
+            else:
+                ctx.ob("R4", "AGREE", f, "key list " + tag, eff, f"keys are tried in the order of {v.show(kt)} (required: the caller's keys, DEFAULT_XOR_KEYS when none are given)", outer)
+        if not s["yields"]:
+            ctx.undecided("R4", "AGREE", f, "candidate yield " + tag, "no yield inside the block search loop: candidates are delivered differently", inner)
+        for y in s["yields"]:
+            n_yields += 1
+            yt = v.term(y.value, y) if y.value is not None else _const(None)
+            if not (yt[0] == "tuple" and len(yt) == 3 and yt[2][0] == "dict"):
+                if yt[0] in ("const", "elem", "param", "global") or (yt[0] == "tuple" and len(yt) != 3):
+                    ctx.ob("R4", "AGREE", f, "candidate yield " + tag, False, f"yields {v.show(yt)}, not (config_block, {{xorkey, xorencoded}})", y)
+                else:
+                    ctx.undecided("R4", "AGREE", f, "candidate yield " + tag, f"yielded value is not a literal (block, extra_info dict) pair: {v.show(yt)}", y)
+                continue
+            info = dict(yt[2][1])
+            if set(info) != {"xorkey", "xorencoded"}:
+                ctx.ob("R4", "AGREE", f, "candidate yield " + tag, False, f"extra_info keys are {sorted(info)} (documented: xorkey, xorencoded)", y)
+                continue
+            block_ok = yt[1] == ("elem", id(inner))
+            recorded = info["xorkey"] == s["key_t"]
+            flag = info["xorencoded"]
+            flag_ok = flag == _const(kind == "xorencoded")
+            ctx.ob("R4", "AGREE", f, "candidate yield " + tag, block_ok and recorded and flag_ok,
+                   f"yields the found block={block_ok}; recorded xorkey is the searched key={recorded} ({v.show(info['xorkey'])}); "
+                   f"file is the {'XorEncoded view' if kind == 'xorencoded' else 'raw file'} and xorencoded={v.show(flag)} -> {flag_ok}", y)
+    # the retry: recursion with the left-over keys
+    retries = []
+    for call in S.retries:
+        st = v.fv.stmt_of(call)
+        a = v.args(call)
+        if a is None or st is None or not cfg.has(st):
+            ctx.undecided("R5", "AGREE", f, "all-keys retry", "recursive call not understood", call)
+            continue
+        retries.append((call, st, a))
+    if n_yields + len(retries) > 0:
+        ctx.rep.count("extraction_yield_sites", n_yields + len(retries), floor=3)
+    # R5: once a candidate has been yielded no later phase may be entered
+    marks, targets, recorders = {}, {}, {}
+    for s in S.sites:
+        for y in s["yields"]:
+            n = v.stmt_node(y)
+            if n is not None:
+                marks[n] = s["kind"]
+        top = s["outer"] if s["outer"] is not None and any(a is s["outer"] for a in v.fv.ancestors(s["inner"])) else s["inner"]
+        targets_of = {t.id for lp in (top, s["inner"]) for t in ast.walk(lp.target) if isinstance(t, ast.Name)}
+        recorders.setdefault(s["kind"], set()).update(_mutated_names(top) - targets_of)
+        targets[cfg.node(s["inner"])] = "search:" + s["kind"]
+    for call, st, a in retries:
+        targets[cfg.node(st)] = "retry"
+    found = _explore(ctx, f, v, marks, targets, recorders) if marks and targets else {}
+
+    def verdict(target, mark, text, good, bad, node):
+        r = found.get((target, mark))
+        if r is None:
+            ctx.ob("R5", "DOM", f, text, True, good, node)
+        elif r == "definite":
+            ctx.ob("R5", "DOM", f, text, False, bad, node)
+        else:
+            ctx.undecided("R5", "DOM", f, text, bad + " - unless a test on a local that is updated in the candidate loop (not a constant boolean) prevents it; that bookkeeping is not understood", node)
+
+    kinds = {s["kind"] for s in S.sites}
+    if {"xorencoded", "raw"} <= kinds:
+        raw = next(s for s in S.sites if s["kind"] == "raw")
+        verdict("search:raw", "xorencoded", "raw search gated", "no path enters the raw-file search after a candidate was yielded from the XorEncoded view",
+                "the raw-file search runs even when the XorEncoded search found a block", raw["inner"])
+        verdict("search:xorencoded", "raw", "phase order enc<raw (candidates)", "no path enters the XorEncoded search after a raw candidate",
+                "the XorEncoded search can run after a raw candidate was yielded", raw["inner"])
+        for e in (s for s in S.sites if s["kind"] == "xorencoded"):
+            for r in (s for s in S.sites if s["kind"] == "raw"):
+                back = cfg.reaches(cfg.node(r["inner"]), cfg.node(e["inner"]))
+                ctx.ob("R5", "DOM", f, "phase order enc<raw", not back, "XorEncoded search precedes the raw search" if not back else "raw search can precede the XorEncoded search", r["inner"])
+    elif S.sites and not S.unlocated:
+        ctx.undecided("R5", "DOM", f, "raw search gated", f"only {sorted(kinds)} search sites located: the two-phase structure (XorEncoded view first, then the raw file) is not recognisable", f.node)
+    for call, st, a in retries:
+        for k in sorted(kinds):
+            verdict("retry", k, f"all-keys retry gated [{k}]", f"no path enters the all-keys retry after a {k} candidate was yielded",
+                    f"the all-keys retry runs although a {k} candidate was found", call)
+        conds = dominating_conditions(ctx, f, call)
+        gated = any(txt == ps[3] and pol is True for txt, pol, _n in conds)
+        ctx.ob("R5", "DOM", f, "all-keys retry requested", gated, f"retry is dominated by `{ps[3]}` being true" if gated else f"all-keys retry is not gated by the `{ps[3]}` option", call)
+        for s in S.sites:
+            back = cfg.reaches(cfg.node(st), cfg.node(s["inner"]))
+            ctx.ob("R5", "DOM", f, "phase order default<all", not back, "default-key phases precede the retry" if not back else "retry can precede a default-key phase", call, nontrivial=False)
+        names = list(a)
+        file_t = v.term(a[names[0]], call)
+        keys_e = a.get(names[1])
+        axk = v.term(a.get(ps[3]), call)
+        xd = v.term(a.get(ps[2]), call)
+        term = axk[0] == "const" and not axk[2]
+        same_file = file_t == S.fobj_t
+        xd_ok = xd in (("param", ps[2]), _const(True))
+        kt = v.term(keys_e, call) if keys_e is not None else _const(None)
+        kc = v.call_of(kt)
+        if kc is None or v.callee_fq(kc) != FQ_BYTELIST:
+            if kt[0] in ("const", "param", "global", "or"):
+                ctx.ob("R5", "AGREE", f, "all-keys retry keys", False, f"retry keys are {v.show(kt)}, not the left-over single-byte keys", call)
+            else:
+                ctx.undecided("R5", "AGREE", f, "all-keys retry keys", f"retry keys are not the result of make_byte_list(): {v.show(kt)}", call)
+        else:
+            ba = v.args(kc) or {}
+            ex = next(iter(ba.values()), None)
+            eff, et = S.effective_keys(ex, kc) if ex is not None else (None, _const(None))
+            if eff is None:
+                ctx.undecided("R5", "AGREE", f, "all-keys retry keys", f"left-over keys exclude {v.show(et)}: not recognised as the key list that was tried", kc)
+            else:
+                ctx.ob("R5", "AGREE", f, "all-keys retry keys", eff, f"left-over keys = all single bytes minus {v.show(et)} (must be exactly the key list that was tried first)", kc)
+        ctx.ob("R5", "AGREE", f, "all-keys retry call", term and same_file and xd_ok,
+               f"{ps[3]}=False in the recursion (bounded)={term}; same file={same_file}; {ps[2]} forwarded={xd_ok}", call)
+        # the candidates of the retry are passed on
+        fv = v.fv
+        yf = fv.parent.get(id(call))
+        passed_on = isinstance(yf, ast.YieldFrom)
+        if not passed_on:
+            for lp in v.loops_over(call):
+                passed_on = passed_on or any(isinstance(y, ast.Yield) and y.value is not None and v.term(y.value, y) == ("elem", id(lp)) for y in ast.walk(lp))
+        if passed_on:
+            ctx.ob("R5", "AGREE", f, "all-keys retry result", True, "every candidate of the retry is yielded unchanged", call)
+        else:
+            ctx.undecided("R5", "AGREE", f, "all-keys retry result", "the recursion's candidates are not passed on by `yield from` or a yielding loop", call)
+    if not retries:
+        ctx.undecided("R5", "DOM", f, "all-keys retry", "no recursive retry with the left-over keys located", f.node)
+    # make_byte_list: all 256 single bytes minus exclude
+    mb = ctx.repo.func(FQ_BYTELIST)
+    mv = _Val(ctx, mb)
+    ranges = [c for c in ast.walk(mb.node) if isinstance(c, ast.Call) and dotted(c.func) == "range"]
+    if not ranges:
+        ctx.undecided("R5", "TABLE", mb, "range(256)", "make_byte_list does not enumerate a range()", mb.node)
+    else:
+        full = False
+        for c in ranges:
             try:
-                needle_const = const_eval(needle_node)
+                full = full or _ceval(c) == list(range(256))
             except NotConst:
                 pass
-    ctx.ob("R2", "TABLE", f, "needle header", needle_const == ref,
-           f"scan needle (before XOR) is {needle_const!r}; serialisation of Setting(SETTING_PROTOCOL, TYPE_SHORT, length=2)+00 "
-           f"from CS_DEF ({'big' if cd.endian == '>' else 'little'}-endian) is {ref!r}", needle_node or f.node)
-    ps = None
-    fh_p = params(f.node)[0]
-    for c in fn_calls(f.node):
-        if isinstance(c.func, ast.Attribute) and c.func.attr == "read" and dotted(c.func.value) == fh_p and c.args:
-            try:
-                ps = const_eval(origin(f.node, c.args[0]))
-            except NotConst:
-                ps = src(c.args[0])
-    ctx.ob("R2", "TABLE", f, "block size", ps == REF_PATCH_SIZE, f"block size read is {ps} (4096 required)", f.node)
+        uses_ex = any(isinstance(n, ast.Name) and n.id == mv.params[0] and isinstance(n.ctx, ast.Load) for n in ast.walk(mb.node)) if mv.params else False
+        ctx.ob("R5", "TABLE", mb, "range(256)", full and uses_ex, f"left-over keys enumerate range(256)={full} and depend on the exclude parameter={uses_ex}", mb.node)
 
 
-# ---------------------------------------------------------------------------- R3
-def r3(ctx):
-    f = ctx.repo.func("beacon.find_beacon_config_bytes")
-    ps = params(f.node)
-    fh_p, key_p = ps[0], ps[1]
-    for p in ps[:2]:
-        if assignments_to(f.node, p):
-            ctx.ob("R3", "AGREE", f, f"{p} rebound", False, f"parameter {p} is rebound", f.node)
-    scans = calls_to(ctx, f, target_fq="utils.iter_find_needle")
-    if len(scans) != 1:
-        ctx.ob("R3", "AGREE", f, "iter_find_needle(...)", False, f"expected exactly one scanner call, found {len(scans)}", f.node)
-        return
-    sc = scans[0]
-    a0 = sc.args[0] if sc.args else kwarg(sc, "fp")
-    so = kwarg(sc, "start_offset") if kwarg(sc, "start_offset") is not None else (sc.args[2] if len(sc.args) > 2 else None)
-    mo = kwarg(sc, "max_offset") if kwarg(sc, "max_offset") is not None else (sc.args[3] if len(sc.args) > 3 else None)
-    ctx.ob("R3", "AGREE", f, src(sc), dotted(a0) == fh_p and so is not None and is_const(so, 0) and (mo is None or is_const(mo, 0)),
-           f"scanner runs over {src(a0)} from start_offset={src(so)} with max_offset={src(mo)} (required: the file, 0, no limit)", sc)
-    needle = sc.args[1] if len(sc.args) > 1 else kwarg(sc, "needle")
-    no = origin(f.node, needle)
-    nk = no.args[1] if isinstance(no, ast.Call) and len(no.args) > 1 else None
-    n_is_xor = isinstance(no, ast.Call) and ctx.rs.resolve_call(f, no).fq == "utils.xor"
-    ctx.ob("R3", "AGREE", f, "needle key", n_is_xor and dotted(nk) == key_p, f"needle is {src(no)}: XOR with key operand {src(nk)} (must be parameter {key_p})", sc)
-    fv = FuncView.of(f.node)
-    loop = fv.enclosing(sc, (ast.For,))
-    if loop is None or loop.iter is not sc and strip_cast(loop.iter) is not sc:
-        ctx.ob("R3", "AGREE", f, "for pos in iter_find_needle", False, "scanner result is not consumed by a for loop directly", sc)
-        return
-    pos = dotted(loop.target)
-    seeks = [c for c in ast.walk(loop) if isinstance(c, ast.Call) and isinstance(c.func, ast.Attribute) and c.func.attr == "seek"]
-    reads = [c for c in ast.walk(loop) if isinstance(c, ast.Call) and isinstance(c.func, ast.Attribute) and c.func.attr == "read"]
-    seek_ok = len(seeks) == 1 and dotted(seeks[0].func.value) == fh_p and len(seeks[0].args) == 1 and dotted(seeks[0].args[0]) == pos
-    ctx.ob("R3", "AGREE", f, "fh.seek(pos)", seek_ok, f"block read position: {[src(s) for s in seeks]} (must be exactly the scanner's loop variable {pos})", loop)
-    def _is_patch(e):
-        try:
-            return const_eval(origin(f.node, e)) == REF_PATCH_SIZE
-        except NotConst:
-            return False
-    read_ok = len(reads) == 1 and dotted(reads[0].func.value) == fh_p and reads[0].args and _is_patch(reads[0].args[0])
-    if seek_ok and read_ok:
-        read_ok = (seeks[0].lineno, seeks[0].col_offset) < (reads[0].lineno, reads[0].col_offset)
-    ctx.ob("R3", "AGREE", f, "fh.read(<patch size>)", bool(read_ok), f"block read: {[src(s) for s in reads]} after the seek", loop)
-    ys = [y for y in ast.walk(loop) if isinstance(y, ast.Yield)]
-    y_ok = False
-    detail = "no yield in scan loop"
-    if len(ys) == 1 and ys[0].value is not None:
-        yv = origin(f.node, ys[0].value)
-        if isinstance(yv, ast.Call) and ctx.rs.resolve_call(f, yv).fq == "utils.xor" and len(yv.args) == 2:
-            d0 = origin(f.node, yv.args[0])
-            y_ok = reads and d0 is reads[0] and dotted(yv.args[1]) == key_p
-            detail = f"yields {src(yv)}: data operand is the block read={d0 is (reads[0] if reads else None)}, key operand {src(yv.args[1])} (must be {key_p})"
-        else:
-            detail = f"yields {src(yv)} (must be xor(<block>, {key_p}))"
-    ctx.ob("R3", "AGREE", f, "yield xor(data, xorkey)", bool(y_ok), detail, loop)
-    # every hit is yielded: no path through the scan loop body skips the yield (a filtered hit is a lost block)
-    cfg = ctx.cfg(f)
-    if ys:
-        ynode = cfg.node(fv.stmt_of(ys[0]))
-        every = cfg.all_paths_pass(cfg.edge_node(loop, "iter"), cfg.node(loop), [ynode]) and not cfg.reaches(cfg.edge_node(loop, "iter"), cfg.node(loop), avoiding=[ynode])
-        exits = [s2 for s2 in ast.walk(loop) if isinstance(s2, (ast.Break, ast.Return, ast.Continue))]
-        ctx.ob("R3", "DOM", f, "every hit yielded", every and not exits,
-               "each needle hit leads to exactly one yielded block (no conditional skip, break or return in the scan loop)" if every and not exits else
-               "a needle hit can be skipped: " + " -> ".join(cfg.witness_path(cfg.edge_node(loop, "iter"), cfg.node(loop), avoiding=[ynode])[-5:]), loop)
+# ============================================================================ R6 / R7
+def _cls_construction(v, t):
+    """the `cls(...)` call node if term t is a construction by the class parameter, else None"""
+    c = v.call_of(t)
+    if c is not None and isinstance(c.func, ast.Name) and v.params and c.func.id == v.params[0]:
+        return c
+    return None
 
 
-# ---------------------------------------------------------------------------- R4 / R5
-def r4_r5(ctx):
-    f = ctx.repo.func("beacon.iter_beacon_config_blocks")
-    cfg = ctx.cfg(f)
-    fv = FuncView.of(f.node)
-    ps = params(f.node)
-    fobj_p = ps[0]
-    # default key list
-    dk = [v for st, v in assignments_to(f.node, "xor_keys")]
-    dk_ok = len(dk) == 1 and isinstance(dk[0], ast.BoolOp) and isinstance(dk[0].op, ast.Or) and dotted(dk[0].values[0]) == "xor_keys" and dotted(dk[0].values[-1]) == "DEFAULT_XOR_KEYS"
-    ctx.ob("R4", "AGREE", f, "xor_keys = xor_keys or DEFAULT_XOR_KEYS", dk_ok, f"key list default: {[src(d) for d in dk]}", f.node)
-    y_enc, y_raw, y_rec = [], [], []
-    for y in _yield_values(f.node):
-        st = fv.stmt_of(y)
-        if isinstance(y, ast.YieldFrom):
-            y_rec.append(y)
-            continue
-        v = y.value
-        if not (isinstance(v, ast.Tuple) and len(v.elts) == 2 and isinstance(v.elts[1], ast.Dict)):
-            ctx.ob("R4", "AGREE", f, src(y), False, "yield is not (config_block, {xorkey, xorencoded})", y)
-            continue
-        d = {const_eval(k): val for k, val in zip(v.elts[1].keys, v.elts[1].values) if isinstance(k, ast.Constant)}
-        if set(d) != {"xorkey", "xorencoded"}:
-            ctx.ob("R4", "AGREE", f, src(y), False, f"extra_info keys are {sorted(d)}", y)
-            continue
-        # the inner loop: for config_block in find_beacon_config_bytes(F, K)
-        inner = fv.enclosing(y, (ast.For,))
-        ok = False
-        detail = "yield is not inside a `for <block> in find_beacon_config_bytes(file, key)` loop"
-        if inner is not None and isinstance(strip_cast(inner.iter), ast.Call):
-            call = strip_cast(inner.iter)
-            cal = ctx.rs.resolve_call(f, call)
-            if cal.kind == "func" and cal.func.fq == "beacon.find_beacon_config_bytes" and len(call.args) >= 2:
-                file_arg, key_arg = call.args[0], call.args[1]
-                outer = fv.enclosing(inner, (ast.For,))
-                key_is_loopvar = outer is not None and dotted(outer.target) == dotted(key_arg) and dotted(outer.iter) == "xor_keys"
-                recorded = dotted(d["xorkey"]) == dotted(key_arg)
-                block_ok = dotted(v.elts[0]) == dotted(inner.target)
-                # which file?
-                forigs = reaching_origins(ctx, f, file_arg, call)
-                is_xf = all(isinstance(strip_cast(o), ast.Call) and ctx.rs.resolve_call(f, strip_cast(o)).fq == "xordecode.XorEncodedFile.from_file" for o in forigs)
-                is_raw = all(dotted(o) == fobj_p for o in forigs)
-                flag = d["xorencoded"]
-                flag_ok = (is_xf and is_const(flag, True)) or (is_raw and is_const(flag, False))
-                ok = key_is_loopvar and recorded and block_ok and flag_ok
-                detail = (f"key iterates xor_keys={key_is_loopvar}; recorded xorkey is the searched key={recorded}; yields the found block={block_ok}; "
-                          f"file is {'XorEncoded view' if is_xf else 'raw file' if is_raw else 'mixed/unknown'} and xorencoded={src(flag)} -> {flag_ok}")
-                (y_enc if is_xf else y_raw).append(y)
-        ctx.ob("R4", "AGREE", f, src(y), ok, detail, y)
-    ctx.rep.count("extraction_yield_sites", len(y_enc) + len(y_raw) + len(y_rec), floor=3)
-    # R5: found flag set before each yield; later phases gated by `not found`
-    # the flag: the one local that is assigned the constant True inside the candidate loops
-    flags = set()
-    for y in y_enc + y_raw:
-        lp = fv.enclosing(y, (ast.For,))
-        while lp is not None:
-            for s2 in ast.walk(lp):
-                if isinstance(s2, ast.Assign) and is_const(s2.value, True) and dotted(s2.targets[0]):
-                    flags.add(dotted(s2.targets[0]))
-            lp = fv.enclosing(lp, (ast.For,))
-    flag = sorted(flags)[0] if len(flags) == 1 else "found"
-    inits = [v for st, v in assignments_to(f.node, flag) if is_const(v, False)]
-    ctx.ob("R5", "DOM", f, "found flag", len(flags) == 1 and bool(inits), f"one boolean flag ({sorted(flags)}) records that a candidate was found; it starts as False={bool(inits)}")
-
-    def not_found(test):
-        if isinstance(test, ast.UnaryOp) and isinstance(test.op, ast.Not) and dotted(test.operand) == flag:
-            return True
-        if dotted(test) == flag:
-            return False
-        return None
-
-    for y in y_enc + y_raw:
-        st = fv.stmt_of(y)
-        loop = fv.enclosing(y, (ast.For,))
-        sets = [s for s in ast.walk(loop) if isinstance(s, ast.Assign) and dotted(s.targets[0]) == flag and is_const(s.value, True)] if loop else []
-        ok = any(cfg.dominates(cfg.node(s), cfg.node(st)) for s in sets)
-        ctx.ob("R5", "DOM", f, "found=True before yield [" + ("xorencoded" if y in y_enc else "raw") + "]", ok, "`found = True` dominates the yield inside its loop" if ok else "a candidate can be yielded without recording found=True (later phases would run too)", y)
-    for y in y_raw:
-        ok = guarded_by(ctx, f, y, not_found)
-        ctx.ob("R5", "DOM", f, "raw search gated", ok, "raw-file search is dominated by the `not found` edge" if ok else "raw-file search runs even when the XorEncoded search found a block", y)
-        for ye in y_enc:
-            back = cfg.reaches(cfg.node(fv.stmt_of(y)), cfg.node(fv.stmt_of(ye)))
-            ctx.ob("R5", "DOM", f, "phase order enc<raw", not back, "XorEncoded search precedes the raw search" if not back else "raw search can precede the XorEncoded search", y)
-    for y in y_rec:
-        ok = guarded_by(ctx, f, y, not_found) and guarded_by(ctx, f, y, lambda t: True if dotted(t) == ps[3] else None)
-        ctx.ob("R5", "DOM", f, "all-keys retry gated", ok, "retry is dominated by `not found and all_xor_keys`" if ok else "all-keys retry is not gated by `not found and all_xor_keys`", y)
-        for yo in y_enc + y_raw:
-            back = cfg.reaches(cfg.node(fv.stmt_of(y)), cfg.node(fv.stmt_of(yo)))
-            ctx.ob("R5", "DOM", f, "phase order default<all", not back, "default-key phases precede the retry" if not back else "retry can precede a default-key phase", y, nontrivial=False)
-        call = y.value
-        rec_ok = False
-        detail = "retry is not a recursive call with the left-over keys"
-        if isinstance(call, ast.Call):
-            cal = ctx.rs.resolve_call(f, call)
-            if cal.kind == "func" and cal.func.fq == f.fq:
-                keys = call.args[1] if len(call.args) > 1 else kwarg(call, "xor_keys")
-                ko = origin(f.node, keys) if keys is not None else None
-                from_ml = isinstance(ko, ast.Call) and ctx.rs.resolve_call(f, ko).fq == "beacon.make_byte_list" and dotted(kwarg(ko, "exclude") or (ko.args[0] if ko.args else None)) == "xor_keys"
-                axk = kwarg(call, "all_xor_keys")
-                term = axk is not None and is_const(axk, False)
-                same_file = call.args and dotted(call.args[0]) == fobj_p
-                xd = kwarg(call, "xordecode")
-                rec_ok = from_ml and term and same_file and (xd is None or dotted(xd) == "xordecode")
-                detail = f"keys from make_byte_list(exclude=xor_keys)={from_ml}; all_xor_keys=False (bounded recursion)={term}; same file={bool(same_file)}"
-        ctx.ob("R5", "AGREE", f, src(y), rec_ok, detail, y)
-    # make_byte_list: all 256 single bytes minus exclude
-    mb = ctx.repo.func("beacon.make_byte_list")
-    txt = " ".join(src(s) for s in statements(mb.node) if isinstance(s, ast.Return))
-    r256 = any(isinstance(c, ast.Call) and dotted(c.func) == "range" and c.args and is_const(c.args[0], 256) for c in ast.walk(mb.node))
-    ctx.ob("R5", "TABLE", mb, "range(256)", r256 and "exclude" in txt, f"left-over keys enumerate range(256) minus exclude: {txt}", mb.node)
-
-
-# ---------------------------------------------------------------------------- R6 / R7
 def r6_r7(ctx):
-    f = ctx.repo.func("beacon.BeaconConfig.from_file")
-    cfg = ctx.cfg(f)
-    fv = FuncView.of(f.node)
-    ps = params(f.node)  # cls, fobj, xor_keys, all_xor_keys
-    loops = []
-    for st in statements(f.node):
-        if isinstance(st, ast.For) and isinstance(strip_cast(st.iter), ast.Call):
-            cal = ctx.rs.resolve_call(f, strip_cast(st.iter))
-            if cal.kind == "func" and cal.func.fq == "beacon.iter_beacon_config_blocks":
-                loops.append(st)
-    if len(loops) != 1:
-        ctx.ob("R6", "DOM", f, "for ... in iter_beacon_config_blocks", False, f"expected one candidate loop, found {len(loops)}", f.node)
+    f = ctx.repo.func(FQ_FROM_FILE)
+    v = _Val(ctx, f)
+    cfg, fv = v.cfg, v.fv
+    ps = v.params  # cls, fobj, xor_keys, all_xor_keys
+    if len(ps) < 4:
+        ctx.undecided("R6", "DOM", f, "candidate source", "from_file no longer takes (cls, file, keys, all-keys)", f.node)
         return
-    loop = loops[0]
-    call = strip_cast(loop.iter)
-    fwd = (call.args and dotted(call.args[0]) == ps[1] and dotted(kwarg(call, "xor_keys")) == "xor_keys" and dotted(kwarg(call, "all_xor_keys")) == "all_xor_keys"
-           and kwarg(call, "xordecode") is None)
-    ctx.ob("R7", "AGREE", f, src(call), bool(fwd), "file and key options forwarded under their own names" if fwd else "xor_keys/all_xor_keys not forwarded unchanged to the block iterator", call)
-    header = cfg.node(loop)
-    it_edge = cfg.edge_node(loop, "iter")
-    back = cfg.reaches(it_edge, header)
-    ctx.ob("R6", "DOM", f, "first candidate wins", not back,
-           "no path from the candidate loop body back to the loop header: the first candidate is returned" if not back else
-           "the candidate loop can continue to a later candidate: " + " -> ".join(cfg.witness_path(it_edge, header)), loop)
-    # the returned object is built from this candidate and carries its metadata
-    tgt = loop.target
-    blk, info = (dotted(tgt.elts[0]), dotted(tgt.elts[1])) if isinstance(tgt, ast.Tuple) and len(tgt.elts) == 2 else (None, None)
-    rets = [r for r in ast.walk(loop) if isinstance(r, ast.Return)]
-    for r in rets:
-        o = origin(f.node, r.value) if r.value is not None else None
-        name = dotted(r.value)
-        built = [v for st, v in assignments_to(f.node, name) if any(st is x for x in ast.walk(loop))] if name else []
-        b_ok = len(built) == 1 and isinstance(built[0], ast.Call) and dotted(built[0].func) == "cls" and built[0].args and dotted(built[0].args[0]) == blk
-        meta = {}
-        for s in ast.walk(loop):
-            if isinstance(s, ast.Assign) and isinstance(s.targets[0], ast.Attribute) and dotted(s.targets[0].value) == name:
-                meta[s.targets[0].attr] = s.value
-        def from_info(v, key):
-            return isinstance(v, ast.Subscript) and dotted(v.value) == info and is_const(v.slice, key)
-        m_ok = from_info(meta.get("xorkey"), "xorkey") and from_info(meta.get("xorencoded"), "xorencoded")
-        ctx.ob("R6", "AGREE", f, "return " + src(r.value), b_ok and m_ok,
-               f"returned config is cls(<candidate block>)={b_ok}; xorkey/xorencoded copied from the candidate's extra_info={m_ok}", r)
+    srcs = v.calls(FQ_BLOCKS)
+    if not srcs:
+        ctx.undecided("R6", "DOM", f, "candidate source", "no call of iter_beacon_config_blocks located in from_file", f.node)
+    for call in srcs:
+        a = v.args(call) or {}
+        names = list(a)
+        # callee signature: (file, keys, xordecode, all-keys)
+        fwd = (len(names) >= 4 and v.term(a[names[0]], call) == ("param", ps[1]) and v.term(a[names[1]], call) == ("param", ps[2])
+               and v.term(a[names[3]], call) == ("param", ps[3]) and v.term(a[names[2]], call) == _const(True))
+        ctx.ob("R7", "AGREE", f, "candidate source arguments", bool(fwd), "file and key options forwarded unchanged, XorEncoded search enabled" if fwd else
+               "file / xor_keys / all_xor_keys are not forwarded unchanged to the block iterator (or xordecode is switched off)", call)
+        # how is the candidate source consumed?
+        want = ("call", id(call))
+        loops = v.loops_over(call)
+        nexts = [c for c in fn_calls(f.node) if isinstance(c.func, ast.Name) and c.func.id == "next" and "next" not in v.locals and c.args and v.term(c.args[0], c) == want]
+        cands = []  # (candidate term, consumption cfg node, description)
+        for lp in loops:
+            v.node[id(lp)] = lp
+            header, it_edge = cfg.node(lp), cfg.edge_node(lp, "iter")
+            back = cfg.reaches(it_edge, header)
+            ctx.ob("R6", "DOM", f, "first candidate wins", not back,
+                   "no path from the candidate loop body back to the loop header: the first candidate is returned" if not back else
+                   "the candidate loop can continue to a later candidate: " + " -> ".join(cfg.witness_path(it_edge, header)), lp)
+            cands.append((("elem", id(lp)), it_edge, lp))
+        for nx in nexts:
+            n = v.stmt_node(nx)
+            if n is None:
+                continue
+            others = [v.stmt_node(o) for o in nexts if o is not nx] + [cfg.node(lp) for lp in loops]
+            again = cfg.reaches(n, n) or any(o is not None and cfg.reaches(o, n) for o in others)
+            ctx.ob("R6", "DOM", f, "first candidate wins", not again,
+                   "the candidate source is advanced once: the first candidate is used" if not again else "the candidate source can be advanced more than once before this candidate is taken", nx)
+            # exhaustion must lead to the documented error, not StopIteration
+            if len(nx.args) + len(nx.keywords) < 2:
+                tr = [t for t in fv.ancestors(nx) if isinstance(t, ast.Try) and any(fv.stmt_of(nx) is x for b in t.body for x in ast.walk(b))
+                      and any(h.type is None or any(dotted(x) in ("StopIteration", "Exception", "BaseException") for x in ast.walk(h.type)) for h in t.handlers)]
+                ctx.ob("R7", "EXIT", f, "exhausted candidate source", bool(tr), "next() without default is protected by an except StopIteration" if tr else
+                       "next() without a default: an exhausted candidate source raises StopIteration instead of falling through to ValueError", nx)
+            cands.append((("call", id(nx)), n, nx))
+        if not cands:
+            ctx.undecided("R6", "DOM", f, "first candidate wins", "the candidate source is consumed neither by a for loop nor by next(): cannot tell which candidate is used", call)
+            continue
+        # the returned object is built from this candidate and carries its metadata
+        n_ret = 0
+        for r in cfg.return_stmts():
+            if r.value is None:
+                continue
+            rt = v.term(r.value, r)
+            for cand_t, cnode, cn in cands:
+                rn = cfg.node(r)
+                if not _mentions_cand(v, rt, cand_t) and not (cand_t[0] == "elem" and cfg.dominates(cnode, rn) and any(r is x for x in ast.walk(cn))):
+                    continue
+                n_ret += 1
+                cons = _cls_construction(v, rt)
+                if cons is None:
+                    ctx.undecided("R6", "AGREE", f, "candidate return", f"the value returned for a candidate is not a direct construction by {ps[0]}(...): {v.show(rt)}", r)
+                    continue
+                arg0 = cons.args[0] if cons.args else (cons.keywords[0].value if cons.keywords and cons.keywords[0].arg else None)
+                b_ok = arg0 is not None and v.term(arg0, cons) == _item(cand_t, 0)
+                if cand_t[0] == "call":
+                    # next(.., default): the candidate is only used where it is known not to be the default
+                    conds = dominating_conditions(ctx, f, cons)
+                    tested = False
+                    for _txt, pol, tn in conds:
+                        subj = tn.left if isinstance(tn, ast.Compare) else tn
+                        if v.term(subj, fv.stmt_of(tn) or tn) == cand_t:
+                            tested = True
+                    if len(cn.args) + len(cn.keywords) >= 2:
+                        ctx.ob("R6", "DOM", f, "candidate presence test", tested, "the candidate is used only under a test that tells it from next()'s default" if tested else
+                               "the result of next(.., default) is used without testing whether a candidate was found", cons)
+                # metadata: attribute stores on the constructed object between construction and return
+                meta, escaped = _attr_stores(ctx, f, v, r, cons)
+                want_meta = {"xorkey": _key(_item(cand_t, 1), "xorkey"), "xorencoded": _key(_item(cand_t, 1), "xorencoded")}
+                m_ok, m_und, parts = True, False, []
+                for attr, wt in want_meta.items():
+                    vals = meta.get(attr)
+                    if not vals:
+                        if escaped:
+                            m_und = True
+                            parts.append(f"{attr}: not assigned directly (object is handed to other code)")
+                        else:
+                            m_ok = False
+                            parts.append(f"{attr}: never set")
+                    else:
+                        good = all(t == wt for t in vals)
+                        if not good and not any(t != wt and _understood(t) for t in vals):
+                            m_und = True
+                            parts.append(f"{attr} <- {', '.join(v.show(t) for t in vals)} (not understood)")
+                            continue
+                        m_ok = m_ok and good
+                        parts.append(f"{attr} <- {', '.join(v.show(t) for t in vals)} ({'candidate metadata' if good else 'NOT the candidate metadata'})")
+                text = "return of the candidate config"
+                if b_ok and m_ok and m_und:
+                    ctx.undecided("R6", "AGREE", f, text, "; ".join(parts), r)
+                else:
+                    ctx.ob("R6", "AGREE", f, text, b_ok and m_ok,
+                           f"returned config is {ps[0]}(<candidate block>)={b_ok}; " + "; ".join(parts), r)
+        if n_ret == 0:
+            ctx.undecided("R6", "AGREE", f, "return of the candidate config", "no return statement that is built from the candidate located", call)
     # R7: exits
     for r in cfg.return_stmts():
-        name = dotted(r.value)
-        defs = [v for st, v in assignments_to(f.node, name)] if name else []
-        ok = bool(defs) and all(isinstance(v, ast.Call) and dotted(v.func) == "cls" for v in defs)
-        ctx.ob("R7", "EXIT", f, "return " + src(r.value), ok, "returns an object constructed by cls(...)" if ok else "returns something that is not a constructed BeaconConfig", r)
-    ctx.ob("R7", "EXIT", f, "falls off end", not cfg.falls_off_end(), "function cannot fall off its end (would return None)" if not cfg.falls_off_end() else "a path returns None implicitly", f.node)
-    for r in cfg.raise_stmts():
-        if r.exc is None:
+        if not cfg.reachable(cfg.node(r)):
             continue
-        ctx.ob("R7", "EXIT", f, src(r), raise_class(r) == "ValueError", f"raises {raise_class(r)} (documented: ValueError)", r)
-    last_raise = [r for r in cfg.raise_stmts() if raise_class(r) == "ValueError" and fv.enclosing(r, (ast.For, ast.While, ast.If, ast.Try)) is None]
-    ctx.ob("R7", "EXIT", f, "final raise ValueError", bool(last_raise), "ends in an unconditional raise ValueError" if last_raise else "no unconditional `raise ValueError` at the end", f.node)
-    for fq, wrap in (("beacon.BeaconConfig.from_path", "open"), ("beacon.BeaconConfig.from_bytes", "io.BytesIO")):
+        rt = v.term(r.value, r) if r.value is not None else _const(None)
+        alts = _alts(rt)
+        if all(_cls_construction(v, a) is not None for a in alts):
+            ctx.ob("R7", "EXIT", f, "return value", True, f"returns an object constructed by {ps[0]}(...)", r)
+        elif any(a[0] in ("const", "param", "global", "tuple", "dict") for a in alts):
+            ctx.ob("R7", "EXIT", f, "return value", False, f"returns {v.show(rt)}: not a constructed BeaconConfig", r)
+        else:
+            ctx.undecided("R7", "EXIT", f, "return value", f"returned value is not recognisably a {ps[0]}(...) construction: {v.show(rt)}", r)
+    ctx.ob("R7", "EXIT", f, "falls off end", not cfg.falls_off_end(), "function cannot fall off its end (would return None)" if not cfg.falls_off_end() else "a path returns None implicitly", f.node)
+    escaping = []
+    for r in cfg.raise_stmts():
+        if r.exc is None or not cfg.reachable(cfg.node(r)):
+            continue
+        rc = raise_class(r)
+        if rc is not None and rc.split(".")[0] in v.locals:
+            ctx.undecided("R7", "EXIT", f, "raised exception", f"re-raises a local exception object: {src(r)}", r)
+            continue
+        ctx.ob("R7", "EXIT", f, "raised exception", rc == "ValueError", f"raises {rc} (documented: ValueError)", r)
+        if rc == "ValueError" and cfg.g.has_edge(cfg.node(r), RAISE):
+            escaping.append(r)
+    ctx.ob("R7", "EXIT", f, "not found -> ValueError", bool(escaping) and not cfg.falls_off_end(),
+           "when no candidate is returned the function leaves with ValueError" if escaping else "no reachable `raise ValueError` leaves the function", f.node)
+    # the convenience entry points delegate to from_file
+    for fq, wrap in (("beacon.BeaconConfig.from_path", "open"), ("beacon.BeaconConfig.from_bytes", "BytesIO")):
         g = ctx.repo.func(fq)
-        calls = [c for c in fn_calls(g.node) if dotted(c.func) == "cls.from_file"]
-        ok = False
-        detail = "does not delegate to cls.from_file"
-        if len(calls) == 1:
-            c = calls[0]
-            kw_ok = dotted(kwarg(c, "xor_keys")) == "xor_keys" and dotted(kwarg(c, "all_xor_keys")) == "all_xor_keys"
-            a0 = c.args[0] if c.args else None
+        gv = _Val(ctx, g)
+        gp = gv.params
+        calls = gv.calls(FQ_FROM_FILE)
+        if len(calls) != 1:
+            ctx.undecided("R7", "AGREE", g, "delegation to from_file", f"{len(calls)} calls of from_file located: the entry point is implemented differently", g.node)
+            continue
+        c = calls[0]
+        a = gv.args(c, method=True)
+        if a is None:
+            ctx.undecided("R7", "AGREE", g, "delegation to from_file", "arguments of the from_file call not understood", c)
+            continue
+        names = list(a)
+        if len(gp) < 4 or len(names) < 3:
+            ctx.undecided("R7", "AGREE", g, "delegation to from_file", "signature of the entry point / from_file changed", c)
+            continue
+        kw_ok = gv.term(a[names[1]], c) == ("param", gp[2]) and gv.term(a[names[2]], c) == ("param", gp[3])
+        ft = gv.term(a[names[0]], c)
+        if ft[0] == "with":
+            ft = ft[1]
+        oc = gv.call_of(ft)
+        src_ok = None
+        sdetail = f"source is {gv.show(ft)}"
+        if oc is not None:
+            fn_name = dotted(oc.func) or ""
+            if wrap == "open" and fn_name in ("open", "io.open") and fn_name.split(".")[0] not in gv.locals:
+                pa = list(oc.args) + [None, None]
+                path = pa[0] if oc.args else next((k.value for k in oc.keywords if k.arg == "file"), None)
+                mode = pa[1] if len(oc.args) > 1 else next((k.value for k in oc.keywords if k.arg == "mode"), None)
+                mt = gv.term(mode, oc) if mode is not None else _const("r")
+                src_ok = path is not None and gv.term(path, oc) == ("param", gp[1]) and mt[0] == "const" and mt[1] == "str" and sorted(mt[2]) == ["b", "r"]
+                sdetail = f"source is open(<{gp[1]}>, {gv.show(mt)})"
+            elif wrap == "open" and isinstance(oc.func, ast.Attribute) and oc.func.attr == "open":
+                # Path(path).open("rb")
+                inner = gv.call_of(gv.term(oc.func.value, oc))
+                mode = oc.args[0] if oc.args else next((k.value for k in oc.keywords if k.arg == "mode"), None)
+                mt = gv.term(mode, oc) if mode is not None else _const("r")
+                if inner is not None and (dotted(inner.func) or "").split(".")[-1] == "Path" and len(inner.args) == 1:
+                    src_ok = gv.term(inner.args[0], inner) == ("param", gp[1]) and mt[0] == "const" and mt[1] == "str" and sorted(mt[2]) == ["b", "r"]
+                    sdetail = f"source is Path(<{gp[1]}>).open({gv.show(mt)})"
+            elif wrap == "BytesIO" and fn_name in ("io.BytesIO", "BytesIO") and fn_name.split(".")[0] not in gv.locals:
+                arg0 = oc.args[0] if oc.args else next((k.value for k in oc.keywords if k.arg == "initial_bytes"), None)
+                src_ok = arg0 is not None and gv.term(arg0, oc) == ("param", gp[1])
+                sdetail = f"source is BytesIO({gv.show(gv.term(arg0, oc)) if arg0 is not None else ''})"
+        elif ft[0] in ("param", "const", "global"):
             src_ok = False
-            if a0 is not None:
-                o = origin(g.node, a0)
-                if isinstance(o, ast.Call) and dotted(o.func) == wrap:
-                    if wrap == "open":
-                        mode = o.args[1] if len(o.args) > 1 else kwarg(o, "mode")
-                        src_ok = dotted(o.args[0]) == params(g.node)[1] and is_const(mode, "rb")
+        rets = [r for r in gv.cfg.return_stmts()]
+        rts = [gv.term(r.value, r) if r.value is not None else _const(None) for r in rets]
+        if rets and all(t == ("call", id(c)) for t in rts) and not gv.cfg.falls_off_end():
+            ret_ok = True
+        elif any(t[0] in ("const", "param", "global") for t in rts) or gv.cfg.falls_off_end():
+            ret_ok = False
+        else:
+            ret_ok = None
+        detail = f"key options forwarded={kw_ok}; {sdetail} (binary file over <{gp[1]}> required)={src_ok}; result returned unchanged={ret_ok}"
+        if kw_ok and src_ok is not False and ret_ok is not False and (src_ok is None or ret_ok is None):
+            ctx.undecided("R7", "AGREE", g, "delegation to from_file", detail, c)
+        else:
+            ctx.ob("R7", "AGREE", g, "delegation to from_file", bool(kw_ok and src_ok and ret_ok), detail, c)
+
+
+def _mentions_cand(v, t, cand_t) -> bool:
+    """does the (constructed) value t derive from the candidate?  (looks into the constructor arguments)"""
+    if _mentions(t, cand_t):
+        return True
+    for a in _alts(t):
+        c = v.call_of(a)
+        if c is not None:
+            for x in list(c.args) + [k.value for k in c.keywords]:
+                if not isinstance(x, ast.Starred) and _mentions(v.term(x, c), cand_t):
+                    return True
+    return False
+
+
+def _attr_stores(ctx, f, v, ret, cons):
+    """Attribute stores on the object constructed by `cons` that reach the return `ret`: {attr: [value terms]} and
+    whether the object is handed to other code (as an argument / via setattr) on the way."""
+    cfg, fv = v.cfg, v.fv
+    want = ("call", id(cons))
+    cn, rn = v.stmt_node(cons), cfg.node(ret)
+    meta, escaped = {}, False
+    if cn is None:
+        return meta, True
+    for st in statements(f.node):
+        if not cfg.has(st):
+            continue
+        sn = cfg.node(st)
+        if sn != cn and not (cfg.reaches(cn, sn) and cfg.reaches(sn, rn)):
+            continue
+        if isinstance(st, ast.Assign):
+            pairs = []
+            for t in st.targets:
+                if isinstance(t, ast.Attribute):
+                    pairs.append((t, st.value))
+                elif isinstance(t, (ast.Tuple, ast.List)) and any(isinstance(x, ast.Attribute) for x in t.elts):
+                    if isinstance(st.value, (ast.Tuple, ast.List)) and len(st.value.elts) == len(t.elts):
+                        pairs.extend((x, y) for x, y in zip(t.elts, st.value.elts) if isinstance(x, ast.Attribute))
                     else:
-                        src_ok = o.args and dotted(o.args[0]) == params(g.node)[1]
-                elif isinstance(a0, ast.Name):
-                    # with open(path, "rb") as fobj
-                    for st in statements(g.node):
-                        if isinstance(st, ast.With):
-                            for itm in st.items:
-                                if itm.optional_vars is not None and dotted(itm.optional_vars) == a0.id:
-                                    o = itm.context_expr
-                                    if isinstance(o, ast.Call) and dotted(o.func) == "open":
-                                        mode = o.args[1] if len(o.args) > 1 else kwarg(o, "mode")
-                                        src_ok = dotted(o.args[0]) == params(g.node)[1] and is_const(mode, "rb")
-            rets = [r for r in statements(g.node) if isinstance(r, ast.Return)]
-            ret_ok = all(r.value is c for r in rets) and bool(rets)
-            ok = kw_ok and src_ok and ret_ok
-            detail = f"keywords forwarded={kw_ok}; source is {wrap}(<param>) in binary mode={src_ok}; result returned unchanged={ret_ok}"
-        ctx.ob("R7", "AGREE", g, "cls.from_file(...)", ok, detail, g.node)
+                        pairs.extend((x, None) for x in t.elts if isinstance(x, ast.Attribute))
+            for t, val in pairs:
+                if v.term(t.value, st) == want:
+                    meta.setdefault(t.attr, []).append(v.term(val, st) if val is not None else ("opaque", "unpacked"))
+        for c in (n for n in ast.walk(st) if isinstance(n, ast.Call)) if not isinstance(st, (ast.For, ast.While, ast.If, ast.Try, ast.With)) else ():
+            if c is cons:
+                continue
+            for x in list(c.args) + [k.value for k in c.keywords]:
+                if not isinstance(x, ast.Starred) and v.term(x, st) == want:
+                    escaped = True
+    return meta, escaped
 
 
-# ---------------------------------------------------------------------------- R8
+# ============================================================================ R8
 def r8(ctx):
     try:
         from rules import c15
